@@ -43,6 +43,8 @@ IsSquare(n) == n >= 0 /\ \E r \in 0..n : r * r = n
 AbsI(a) == IF a < 0 THEN 0 - a ELSE a
 
 SeqRange(s) == {s[i] : i \in 1..Len(s)}
+RankInLabel(lab, i) == Cardinality({j \in 1..(i - 1) : lab[j] = lab[i]})
+CountLabel(lab, c) == Cardinality({j \in 1..Len(lab) : lab[j] = c})
 IsPermOf(p, n) == Len(p) = n /\ SeqRange(p) = 1..n
 Permuted(seq, p) == [i \in 1..Len(p) |-> seq[p[i]]]
 Without(seq, rm) == LET keep == SelectSeq([i \in 1..Len(seq) |-> i], LAMBDA i : i \notin rm)
